@@ -5,7 +5,9 @@ different chunks can be told apart.  Bucket listings (`max-keys` in the query) a
 first path component to 'full' (a one-key listing; the default), 'empty' (a listing without keys) or 'missing' (404).
 `trunc` maps an object path to the number of its next GETs that are answered with the full Content-Length but only half
 of the body followed by an orderly close (the client sees IncompleteRead -> a read retry after a back-off sleep);
-`reset_faults()` restores the counters between runs.
+`hangup` maps an object path to the number of its next GETs on which the server drops the connection without sending a
+single byte (the client sees RemoteDisconnected before the response header: urllib3 itself retries, with the Retry object
+it was GIVEN for this attempt); `reset_faults()` restores the counters between runs.
 """
 import http.server
 import socket
@@ -16,11 +18,13 @@ LISTING = b'<?xml version="1.0"?><ListBucketResult><Name>b</Name><Contents><Key>
 
 
 class MiniS3:
-    def __init__(self, objects=None, buckets=None, trunc=None):
+    def __init__(self, objects=None, buckets=None, trunc=None, hangup=None):
         self.objects = dict(objects or {})
         self.buckets = dict(buckets or {})
         self.trunc0 = dict(trunc or {})
         self.trunc = dict(self.trunc0)
+        self.hangup0 = dict(hangup or {})
+        self.hangup = dict(self.hangup0)
         self.flock = threading.Lock()
         self.log = []
         mini = self
@@ -40,6 +44,17 @@ class MiniS3:
                     body, status = {'full': (LISTING, 200), 'empty': (LISTING_EMPTY, 200)}.get(state, (b'', 404))
                 elif path in mini.objects:
                     body, status = mini.objects[path], 200
+                    with mini.flock:
+                        drop = mini.hangup.get(path, 0) > 0
+                        if drop:
+                            mini.hangup[path] -= 1
+                    if drop:
+                        self.close_connection = True
+                        try:
+                            self.connection.shutdown(socket.SHUT_RDWR)
+                        except OSError:
+                            pass
+                        return
                     with mini.flock:
                         if mini.trunc.get(path, 0) > 0:
                             mini.trunc[path] -= 1
@@ -73,6 +88,7 @@ class MiniS3:
     def reset_faults(self):
         with self.flock:
             self.trunc = dict(self.trunc0)
+            self.hangup = dict(self.hangup0)
 
     def close(self):
         self.srv.shutdown()
